@@ -81,6 +81,12 @@ class AbstractConcept(metaclass=ABCMeta):
 
     def __lt__(self, other: 'AbstractConcept'):
         """A concept is smaller than the `other concept if its extent is a subset of extent of `other concept"""
+        if self.context_hash != other.context_hash:
+            raise UnmatchedContextError
+
+        if self.is_monotone != other.is_monotone:
+            raise UnmatchedMonotonicityError
+
         if self.support == other.support:  # i.e. they definitely not equal
             return False
 
